@@ -1,7 +1,8 @@
 (* C15 — Silent-mode buffer stays bounded and gives resources back.
    Only property theorems here; proofs in TSS.Box.{Inv,Bounded,Refute}.  All statements are about the
    sequential model of msg.Box (TSS.Box.Model) in its repaired variant, for ARBITRARY operation lists. *)
-Require Import TSS.Base.Base TSS.Box.Model TSS.Box.Assoc TSS.Box.Inv TSS.Box.Bounded TSS.Box.Handoff TSS.Box.Refute.
+Require Import TSS.Base.Base TSS.Box.Model TSS.Box.Assoc TSS.Box.Inv TSS.Box.Bounded TSS.Box.Handoff TSS.Box.Refute
+               TSS.Box.Sync TSS.Box.SyncFacts.
 
 (* per (sender, topic) at most limit+1 buffered messages; per sender at most maxTopics+1 buffered topics *)
 Theorem C15_bounds :
@@ -10,6 +11,20 @@ Theorem C15_bounds :
   (forall src, (length (topics_of b src) <= S (maxTopics c))%nat).
 Proof. exact box_bounds. Qed.
 Print Assumptions C15_bounds.
+
+(* ... and under concurrency: at every point of every lock-granular interleaving of any goroutines' HandleMessage and Send
+   calls (model TSS.Box.Sync of the repaired Box; no clock tick during the schedule), whether or not traffic is shed: the
+   same bounds, every in-flight entry of a sender stands for a topic with a buffered message of that sender, and a topic
+   that has started has nothing buffered *)
+Theorem C15_concurrent_bounds :
+  forall c, var c = v_fixed -> forall scripts sched,
+  let b := sb (wbox (wrun c scripts sched)) in
+  (forall t st src, aget teqb (pending b) t = Some st -> (nsrc src (s_msgs st) <= S (limit c))%nat) /\
+  (forall src, (length (topics_of b src) <= S (maxTopics c))%nat) /\
+  (forall src t, In t (topics_of b src) -> exists st, aget teqb (pending b) t = Some st /\ (1 <= count_of st src)%nat) /\
+  (forall t st, aget teqb (pending b) t = Some st -> aget teqb (started b) t = None).
+Proof. exact concurrent_bounds. Qed.
+Print Assumptions C15_concurrent_bounds.
 
 (* excess traffic is shed by dropping: no operation sequence, from any state, makes the box panic *)
 Theorem C15_shed_not_fail :
@@ -58,14 +73,14 @@ Theorem C15_shed_tree_refuted :
   has_panic (snd (run (ctree 2 10 6) box0 [Recv (M 1 0 0); Recv (M 1 0 1); Recv (M 1 0 2); Recv (M 1 0 3)])) = true.
 Proof. exact shed_tree_refuted. Qed.
 Theorem C15_release_tree_refuted :
-  handoffs (snd (run (ctree 100 1 6) box0 finished_topics)) = [M 1 0 0; M 1 1 0].
+  TSS.Box.Refute.handoffs (snd (run (ctree 100 1 6) box0 finished_topics)) = [M 1 0 0; M 1 1 0].
 Proof. exact release_tree_refuted. Qed.
 Theorem C15_expiry_tree_refuted :
   buffered (fst (run (ctree 100 10 6) box0 stale_ops)) (T 0) = [M 1 0 0].
 Proof. exact expiry_tree_refuted. Qed.
 (* the same scripts on the repaired variant *)
 Theorem C15_fixed_examples :
-  handoffs (snd (run (cfix 100 1 6) box0 finished_topics)) = [M 1 0 0; M 1 1 0; M 1 2 0; M 1 3 0] /\
+  TSS.Box.Refute.handoffs (snd (run (cfix 100 1 6) box0 finished_topics)) = [M 1 0 0; M 1 1 0; M 1 2 0; M 1 3 0] /\
   buffered (fst (run (cfix 100 10 6) box0 stale_ops)) (T 0) = [].
 Proof. split; [exact release_fixed|exact (proj1 expiry_fixed)]. Qed.
 Print Assumptions C15_fixed_examples.
